@@ -88,6 +88,12 @@ def main(argv):
         print('UNDECIDED property=%s reason=unknown-property' % a.prop)
         return 2
     P = props[a.prop]
+
+    def relevant_tags(unit):
+        # `counts_also`: in the named unit the items carrying another property's tag are obligations of this property too
+        # (e.g. C09/C18 rely on every value decoder of unit attrs, which are tagged C01)
+        also = P.get('counts_also', {}).get(unit)
+        return {a.prop} | ({also} if isinstance(also, str) else set(also or []))
     seed = int(os.environ.get('VERIF_SEED', '0') or 0)
     tier = a.tier if a.tier in ('quick', 'thorough') else 'quick'
     try:
@@ -144,7 +150,7 @@ def main(argv):
                              'note': '%s => %s' % (sb['from'][:60], sb['to'][:60]), 'unit': u})
         failed_fns = set()
         for f in rep.failures:
-            if f.tags and a.prop not in f.tags:
+            if f.tags and not (relevant_tags(u) & set(f.tags)):
                 continue
             if f.kind == 'semantic':
                 k = [x for x in known if f.id.startswith(x['obligation'])]
@@ -156,7 +162,7 @@ def main(argv):
                 undecided.append('%s: %s [%s] %s' % (u, f.id, f.kind, f.message[:200]))
             failed_fns.add(f.fn)
         for fb in rep.functions:
-            if not engine.fn_relevant(rep, fb['function'], a.prop):
+            if not any(engine.fn_relevant(rep, fb['function'], t) for t in relevant_tags(u)):
                 continue
             last = fb['function'].split('::')[-1]
             is_known = any(h[0].fn == last for h in known_hits)
@@ -171,7 +177,7 @@ def main(argv):
                               'discharged': fb['success']})
         # sample clauses: a few contract lines of tagged items
         for spec, it, first, last in rep.unit.items:
-            if it.kind == 'fn' and (not spec.tags or a.prop in spec.tags) and len(samples) < 14:
+            if it.kind == 'fn' and (not spec.tags or (relevant_tags(u) & set(spec.tags))) and len(samples) < 14:
                 cl = [norm(gl.text) for gl in rep.unit.lines[first - 1:last] if gl.origin[0] == 'spec' and gl.origin[2] == 'spec']
                 if cl:
                     samples.append({'obligation': '%s/%s' % (u, it.name), 'source': '%s :: %s' % (spec.crate, spec.path),
